@@ -4,7 +4,15 @@ from .. import oracles, events_oracles
 
 class C08(Prop):
     pid = "C08"
+    quick = {"seeds": 4000, "wall_cap": 90, "chunk": 16}
+    thorough = {"seeds": 80000, "wall_cap": 1500, "chunk": 32}
     level = "exploration"
+    rule = ("one case = one seeded scenario on harmonic-oscillator problems with 1-6 simultaneous events g = s*(h - c), s over 10^-6..10^6, every method "
+            "family, both directions, dense on/off, float64 mostly (float32/longdouble 10% each), buffer-cap knob 1-3 so that events trigger buffer growth, "
+            "callback-scheduled boundaries on/next to roots.  The in-loop monitor runs after EVERY accepted step.  Non-trivial = at least one accepted step "
+            "showed a strict sign change of a monitored function (probe sign_change_steps counts them)")
+    assumptions = ["only strict sign changes between two consecutive recorded rows are required to be reported (two roots inside one step are not)",
+                   "the event must lie in the closed step interval +- 4 eps"]
 
     def monitors(self, scn):
         mons = [events_oracles.Events(props=("C08",))]
